@@ -13,18 +13,20 @@ func init() {
 	})
 	reg(&prop{
 		id: "C10", pkg: "c10", prep: chain(prepStdh("san"), prepSnapObj),
-		rule: "static clause: the snapshot regenerated from the tree is compiled alone (gcc -c -O1, no sanitizer) and inspected with size/nm/objdump: .data/.bss/.tdata/.tbss/COMMON empty and no symbol in a writable section; undefined symbols within {memcpy, memmove, memset, memcmp, calloc, free}; every relocation against calloc/free/malloc/realloc lies inside a function named *__alloc*; for each of the std packages the set of exported (global) functions with that package's prefix equals the set computed by an independent scan of the .wuffs sources (pub struct => initialize/alloc/sizeof, pub func => method); nothing declared pri is exported. Dynamic clause: rapid-generated decodes (all kinds, corpus/corrupted inputs, drawn chunking plans) with every pure method of the interface called before and after every call and the whole object (sizeof bytes) and buffer metadata memcmp'ed. Non-trivial = std package with >= 1 pub func, >= 1 pri func and >= 1 const (static); run whose probes hit an object that is mid-suspension or disabled (dynamic). Generated programs (engine E2: wgen programs and near-miss mutants accepted by the tree's checker, incl. nested arrays read through local slices in pure methods): every public pure getter is called after every step of every history by the reference interpreter, which compares the whole receiver state before and after.",
+		rule: "static clause: the snapshot regenerated from the tree is compiled alone (gcc -c -O1, no sanitizer) and inspected with size/nm/objdump: .data/.bss/.tdata/.tbss/COMMON empty and no symbol in a writable section; undefined symbols within {memcpy, memmove, memset, memcmp, calloc, free}; every relocation against calloc/free/malloc/realloc lies inside a function named *__alloc*; for each of the std packages the set of exported (global) functions with that package's prefix equals the set computed by an independent scan of the .wuffs sources (pub struct => initialize/alloc/sizeof, pub func => method); nothing declared pri is exported. Dynamic clause: rapid-generated decodes (all kinds, corpus/corrupted inputs, drawn chunking plans) with every pure method of the interface called before and after every call and the whole object (sizeof bytes) and buffer metadata memcmp'ed. Non-trivial = std package with >= 1 pub func, >= 1 pri func and >= 1 const (static); run whose probes hit an object that is mid-suspension or disabled (dynamic). Generated programs (engine E2: wgen programs and near-miss mutants accepted by the tree's checker, incl. nested arrays read through local slices in pure methods): every public pure getter is called after every step of every history by the reference interpreter, which compares the whole receiver state before and after; and every accepted generated package is compiled alone and its object inspected with the same static rules (undefined symbols may additionally be the base package's).",
 		assumptions:   []string{"std packages use each other and cannot be compiled alone: the whole snapshot is one object and symbols are attributed to packages by prefix", "base (hand-written C) symbols are inspected for sections/undefined symbols/allocator calls but not for the exact export set"},
 		minNontrivial: 200,
 		quick: tier{jobs: []job{
 			{name: "static", run: "^TestStatic$", shards: 1, checks: 1, timeout: 10 * time.Minute},
 			{name: "pure", run: "^TestPropPure$", shards: 16, checks: 150, timeout: 25 * time.Minute},
 			{name: "generated-pure", pkg: "e2", run: "^TestPropC10$", shards: 8, checks: 500, timeout: 20 * time.Minute},
+			{name: "generated-static", pkg: "e2", run: "^TestPropC10Static$", shards: 16, checks: 4, timeout: 20 * time.Minute},
 		}},
 		thorough: tier{jobs: []job{
 			{name: "static", run: "^TestStatic$", shards: 1, checks: 1, timeout: 10 * time.Minute},
 			{name: "pure", run: "^TestPropPure$", shards: 16, checks: 8000, timeout: 120 * time.Minute},
 			{name: "generated-pure", pkg: "e2", run: "^TestPropC10$", shards: 16, checks: 20000, timeout: 120 * time.Minute},
+			{name: "generated-static", pkg: "e2", run: "^TestPropC10Static$", shards: 16, checks: 150, timeout: 120 * time.Minute},
 		}},
 	})
 }
